@@ -13,8 +13,8 @@ if [ ! -d $WT ]; then
 fi
 cd $WT && git checkout -q --detach $(git -C /repo rev-parse HEAD) && git checkout -q -- . && git clean -fdq -e target
 META="$SEED/meta.json"
-LOC=$(python3 -c "import json;print(json.load(open('$META'))['demo_location'])")
-CMD=$(python3 -c "import json;print(json.load(open('$META'))['demo_cmd'])")
+LOC=$(python3 -c "import json;print(json.load(open('$META'))['demo_location'].split()[0])")
+CMD=$(python3 -c "import json,re;print(re.split(r'\s{2,}\(', json.load(open('$META'))['demo_cmd'])[0])")
 : > "$LOG"
 echo "== seed $SEED  demo at $LOC  cmd: $CMD" >> "$LOG"
 git apply "$SEED/patch.diff" || { echo "VERDICT $SEED patch-does-not-apply" | tee -a "$LOG"; exit 1; }
